@@ -940,6 +940,8 @@ fn typecheck_fn(
     diagnostics: &mut Diagnostics,
     f: &hir::Fn,
 ) {
+    #[cfg(goml_verif)]
+    verif_observe_fn(genv, typer, diagnostics, f, 0);
     let mut local_env = LocalTypeEnv::new();
     let tparams: Vec<tast::TastIdent> = f
         .generics
@@ -997,7 +999,11 @@ fn typecheck_fn(
     local_env.pop_scope(diagnostics);
     local_env.clear_tparams_env();
     local_env.clear_tparam_trait_bounds();
+    #[cfg(goml_verif)]
+    verif_observe_fn(genv, typer, diagnostics, f, 1);
     typer.solve(genv, diagnostics);
+    #[cfg(goml_verif)]
+    verif_observe_fn(genv, typer, diagnostics, f, 2);
 }
 
 fn typecheck_impl_block(
@@ -1089,4 +1095,52 @@ fn typecheck_impl_block(
         local_env.clear_tparam_trait_bounds();
         typer.solve(genv, diagnostics);
     }
+}
+
+/// Verification hook: a harness-installed observer that `typecheck_fn` calls at entry (phase 0),
+/// after constraint generation and before `solve` (phase 1) and after `solve` (phase 2). Only
+/// compiled with `--cfg goml_verif`; it reads, it changes nothing.
+#[cfg(goml_verif)]
+pub type VerifFnObserver =
+    Box<dyn FnMut(&PackageTypeEnv, &mut Typer, &Diagnostics, &hir::Fn, u8)>;
+
+#[cfg(goml_verif)]
+thread_local! {
+    static VERIF_FN_OBSERVER: std::cell::RefCell<Option<VerifFnObserver>> =
+        const { std::cell::RefCell::new(None) };
+}
+
+#[cfg(goml_verif)]
+pub fn verif_set_fn_observer(observer: Option<VerifFnObserver>) {
+    VERIF_FN_OBSERVER.with(|slot| *slot.borrow_mut() = observer);
+}
+
+#[cfg(goml_verif)]
+fn verif_observe_fn(
+    genv: &PackageTypeEnv,
+    typer: &mut Typer,
+    diagnostics: &Diagnostics,
+    f: &hir::Fn,
+    phase: u8,
+) {
+    let taken = VERIF_FN_OBSERVER.with(|slot| slot.borrow_mut().take());
+    if let Some(mut observer) = taken {
+        observer(genv, typer, diagnostics, f, phase);
+        VERIF_FN_OBSERVER.with(|slot| {
+            let mut slot = slot.borrow_mut();
+            if slot.is_none() {
+                *slot = Some(observer);
+            }
+        });
+    }
+}
+
+/// Verification hook: the type a type expression written in a signature / annotation denotes.
+#[cfg(goml_verif)]
+pub fn verif_ty_from_hir(
+    genv: &PackageTypeEnv,
+    ty: &hir::TypeExpr,
+    tparams: &[tast::TastIdent],
+) -> tast::Ty {
+    tast::Ty::from_hir(genv, ty, tparams)
 }
